@@ -664,10 +664,10 @@ func c16JudgeOracle(args, real, drv json.RawMessage) *core.Verdict {
 		}
 		if spec.Err != nil {
 			if out.Err == nil {
-				return core.Fail("missing-required-file-accepted:"+via, "a required env file / a label file is missing but the result is a project")
+				return core.Fail("failing-file-accepted:"+*spec.Err+":"+via, "the specification says the load fails ("+*spec.Err+": a required env file / a label file is missing, or a line of a file fails) but the result is a project")
 			}
 			if *out.Err != *spec.Err {
-				return core.Fail("missing-file-error-class:"+via+":"+*out.Err, "missing file reported as "+*out.Err)
+				return core.Fail("failing-file-error-class:"+via+":"+*spec.Err+"/"+*out.Err, "the load must fail as "+*spec.Err+" (first failing file) but fails as "+*out.Err)
 			}
 			continue
 		}
